@@ -789,7 +789,33 @@ func (b *batch) visitorChurn(g *gen, n int) {
 
 func (b *batch) natholeChurn(g *gen, n int) {
 	for i := 0; i < n/30 && !b.dead(); i++ {
-		owner, err := b.dial(h.PeerOpts{})
+		name := fmt.Sprintf("%sx%d", b.pfx, g.r.Intn(3))
+		// frps hands the session id of an admitted request to the owner on a work connection: the owner answers
+		// every one with a NatHoleClient whose fields come from the hostile pools (no / one / many mapped
+		// addresses, malformed and out-of-range ones) — sometimes with a plausible one
+		var gmu sync.Mutex
+		owner, err := b.dial(h.PeerOpts{AutoWork: true, WorkHandler: func(p *h.Peer, wc *h.WorkConn) {
+			defer wc.Conn.Close()
+			_ = wc.Conn.SetReadDeadline(time.Now().Add(5 * time.Second))
+			var sm msg.NatHoleSid
+			if err := msg.ReadMsgInto(wc.Conn, &sm); err != nil {
+				return
+			}
+			gmu.Lock()
+			cm := g.messageOf(&msg.NatHoleClient{}).(*msg.NatHoleClient)
+			switch g.r.Intn(4) {
+			case 0:
+				cm.MappedAddrs = []string{"198.51.100.7:40001"}
+			case 1:
+				cm.MappedAddrs = []string{"198.51.100.7:40001", "198.51.100.7:40002"}
+				cm.AssistedAddrs = []string{"10.0.0.2:5000"}
+			}
+			gmu.Unlock()
+			cm.Sid, cm.ProxyName = sm.Sid, name
+			b.log.add("nathole-client", cm)
+			_ = p.Send(cm)
+			run.Count("nathole_sids_answered", 1)
+		}})
 		if err != nil || !owner.LoggedIn() {
 			continue
 		}
@@ -798,7 +824,6 @@ func (b *batch) natholeChurn(g *gen, n int) {
 			owner.Close()
 			continue
 		}
-		name := fmt.Sprintf("%sx%d", b.pfx, g.r.Intn(3))
 		var wg sync.WaitGroup
 		wg.Add(2)
 		go func() { // xtcp proxies register and close
@@ -806,14 +831,7 @@ func (b *batch) natholeChurn(g *gen, n int) {
 			for r := 0; r < 10; r++ {
 				m := &msg.NewProxy{ProxyName: name, ProxyType: "xtcp", Sk: "k", AllowUsers: []string{"*"}}
 				_, _ = owner.NewProxy(m, 10*time.Second)
-				// answer sids with hostile NatHoleClient messages
-				if sm, err := owner.WaitMsg(3*time.Millisecond, func(x msg.Message) bool { _, ok := x.(*msg.NatHoleSid); return ok }); err == nil {
-					cm := g.messageOf(&msg.NatHoleClient{}).(*msg.NatHoleClient)
-					cm.Sid = sm.(*msg.NatHoleSid).Sid
-					cm.ProxyName = name
-					b.log.add("nathole-client", cm)
-					_ = owner.Send(cm)
-				}
+				time.Sleep(time.Duration(g.r.Intn(30)) * time.Millisecond) // leave the registration up for some requests
 				_ = owner.CloseProxy(name)
 			}
 		}()
@@ -821,20 +839,28 @@ func (b *batch) natholeChurn(g *gen, n int) {
 			defer wg.Done()
 			for r := 0; r < 40; r++ {
 				ts := time.Now().Unix()
+				gmu.Lock()
 				vm := g.messageOf(&msg.NatHoleVisitor{}).(*msg.NatHoleVisitor)
 				vm.ProxyName = name
 				vm.PreCheck = r%2 == 0
 				if g.r.Intn(3) > 0 {
 					vm.Timestamp, vm.SignKey = ts, h.AuthKey("k", ts)
 				}
+				if g.r.Intn(2) == 0 { // a plausible observation, so that admitted requests reach the analysis
+					vm.MappedAddrs = []string{"203.0.113.9:41001", "203.0.113.9:41002"}
+				}
+				var rep any
+				if g.r.Intn(4) == 0 {
+					rep = g.messageOf(&msg.NatHoleReport{})
+				}
+				gmu.Unlock()
 				b.log.add("nathole-visitor", vm)
 				if visitor.Send(vm) != nil {
 					return
 				}
-				if g.r.Intn(4) == 0 {
-					rep := g.messageOf(&msg.NatHoleReport{})
+				if rep != nil {
 					b.log.add("nathole-report", rep)
-					_ = visitor.Send(rep)
+					_ = visitor.Send(rep.(msg.Message))
 				}
 			}
 		}()
